@@ -508,5 +508,69 @@ def u4(facts, rep):
     return n
 
 
+FREE_LIST_TY = "nomt::beatree::allocator::free_list::FreeList"
+
+
+def u5(facts, rep):
+    """U5 the free list's own pages are released.  `FreeList.portions` holds one entry per free-list page (its page number and
+    the page numbers stored in it).  Whenever an entry is taken out of `portions` (pop / remove / swap_remove), every path to
+    the next iteration or the return either puts an entry back (`portions.push`) or hands a page number to
+    `released_portions` (which `commit` adds to the pages pushed onto the new list); bulk removals (truncate / clear / drain /
+    retain / split_off) are not allowed.  A portion dropped without that leaves its page neither in use nor free."""
+    import termination
+
+    n = 0
+    seen = 0
+
+    def on_field(body, op, field):
+        return any(r.path and r.path[-1] == (field, FREE_LIST_TY) for r in trace(body, op))
+
+    for body in facts.bodies.values():
+        if body.crate != "nomt" or "::tests::" in body.id or body.kind == "Closure" and "::tests::" in body.id:
+            continue
+        calls = list(body.calls())
+        removals = []
+        for b, t in calls:
+            c = t.get("callee") or ""
+            if not c.startswith("alloc::vec::Vec") or not t["args"] or body.is_cleanup(b):
+                continue
+            m = c.rsplit("::", 1)[-1]
+            if m in ("pop", "remove", "swap_remove", "truncate", "clear", "drain", "retain", "split_off", "pop_if", "dedup", "dedup_by_key") and on_field(body, t["args"][0], "portions"):
+                removals.append((b, t, m))
+        if not removals:
+            continue
+        short_ = short(body.id)
+        gates = set()
+        for b, t in calls:
+            c = t.get("callee") or ""
+            m = c.rsplit("::", 1)[-1]
+            if c.startswith("alloc::vec::Vec") and m in ("push", "extend", "insert", "extend_from_slice") and t["args"] and (on_field(body, t["args"][0], "released_portions") or on_field(body, t["args"][0], "portions")):
+                gates.add(b)
+        loops = termination.natural_loops(body)
+        for (b, t, m) in removals:
+            seen += 1
+            n += 1
+            if m not in ("pop", "remove", "swap_remove"):
+                rep.check(False, "U5", short_, "portions.%s" % m, "`portions.%s(..)` at %s removes free-list pages in bulk without releasing their page numbers: those pages would be neither in use nor on the free list" % (m, t.get("ln")), site=t.get("ln"))
+                continue
+            # start on the edge on which an entry was actually removed
+            starts = list(body.succ(b))
+            for sb in range(body.n):
+                tt = body.term(sb)
+                if tt["k"] == "switch" and any(r.kind in ("call", "via") and r.bb == b and r.path and r.path[-1][0] == "<discr>" for r in trace(body, tt["d"])) and body.dominates(b, sb):
+                    some = [x for (v, x) in tt["vals"] if str(v) == "1"]
+                    if some:
+                        starts = some
+            inner = None
+            for (h, blk, lat) in loops:
+                if b in blk and (inner is None or len(blk) < len(inner[1])):
+                    inner = (h, blk)
+            targets = set(body.return_blocks()) | ({inner[0]} if inner else set())
+            reach = body.reachable([x for x in starts if x not in gates], gates)
+            bad = sorted(reach & targets)
+            rep.check(not bad, "U5", short_, "portions.%s=>released-or-put-back" % m, "an entry taken out of FreeList.portions at %s can reach %s without its page number being handed to released_portions (or an entry being put back): the free-list page it described is neither in use nor free afterwards" % (t.get("ln"), "the next iteration / the return (bb%s)" % bad), site=t.get("ln"), detail="portions.%s at %s is followed on every path by released_portions.push / portions.push" % (m, t.get("ln")))
+    return n if seen else 0
+
+
 def run(facts, rep):
-    return u1(facts, rep), u2(facts, rep), u3(facts, rep), u4(facts, rep)
+    return u1(facts, rep), u2(facts, rep), u3(facts, rep), u4(facts, rep), u5(facts, rep)
